@@ -19,6 +19,18 @@ Section Bounds.
     match succ256 ns with Some n' => Excl (n', 0, []) | None => Unb end.
   Definition rb_namespace (ns : N) : bound rid * bound rid := (namespace_start ns, namespace_end ns).
 
+  (** [RecordsBounds::clamped] (after the D14 repair): the part of [start, end) inside the
+      namespace; [None] = the start / the end of the namespace. The ends come from the peer and
+      may lie in another namespace. *)
+  Definition rid_ns (x : rid) : N := fst (fst x).
+  Definition rb_clamped (ns : N) (lo hi : option rid) : bound rid * bound rid :=
+    let starts_after := match lo with Some x => ns <? rid_ns x | None => false end in
+    let ends_before := match hi with Some y => rid_ns y <? ns | None => false end in
+    if starts_after || ends_before then (Incl (ns, 0, []), Excl (ns, 0, []))
+    else
+      ((match lo with Some x => if rid_ns x =? ns then Incl x else namespace_start ns | None => namespace_start ns end),
+       (match hi with Some y => if rid_ns y =? ns then Excl y else namespace_end ns | None => namespace_end ns end)).
+
   (** [RecordsBounds::author_key] *)
   Definition rb_author_key (ns au : N) (f : kfilter) : bound rid * bound rid :=
     let key := match f with KAny => [] | KExact k => k | KPrefix p => p end in
